@@ -11,7 +11,9 @@ files are judged, each against the records logged while it was open), and one lo
 records logged back-to-back while the writer thread does not get to run (write_burst); a part of the logs is written to a path at
 which a file is already present (place_preexisting: the log of an earlier run, a truncated one, a non-zstd file, an empty file).
 Usage variation of the reader: a part of the histories on one reused reader object runs with a second reader object open on another
-log, used in between; each reader is judged against its own log (exec_history).
+log, used in between; each reader is judged against its own log (exec_history).  Every record object a reader hands to the harness is
+edited by the harness once it has been judged (consumer_edits: a consumer post-processing its copies); all later readings of the log in
+the process must still yield what the file holds.  Unusual input: plain / .gz / stdin logs whose last record is not followed by a newline.
 """
 
 from __future__ import annotations
@@ -52,7 +54,12 @@ TECHNIQUE = (
     "a file that is no zstd file, an empty file); the decompressed file is compared with the shadow list of this run (control: the same "
     "log written to a fresh path). Usage variation of the reader: about half of the histories on a reused reader object run with a "
     "second reader object open on another log of another length (any container), operations on the two readers alternate and every "
-    "result is compared with the slice of that reader's own log (control: the operations of the failing reader alone)"
+    "result is compared with the slice of that reader's own log (control: the operations of the failing reader alone). "
+    "Usage variation of the consumer: every record object that a PenlogReader hands out is edited by the harness after it has been judged "
+    "(text redacted, tag added in place, priority, time stamp and stack trace replaced); every later reading of the same log in the process - "
+    "the same reader object, a fresh reader, another container with the same lines, hr in-process - is compared with the shadow list as "
+    "before (a result that shows the marks of the harness is attributed to the edits). Unusual input: plain, .gz and stdin-pipe containers "
+    "whose last record is not followed by a newline, in every mode"
 )
 LEVEL_TEXT = (
     "Exploration: some hundred (quick) to ten thousand (thorough) generated logs of length 0..3000 (arbitrary Unicode scalar "
@@ -62,7 +69,9 @@ LEVEL_TEXT = (
     "read from a .zst of several frames and a .gz of several members. About a third of the single-run logs is written while a second log "
     "file of the same process is open (both files are read back and judged); one log per quick run (four per thorough run) is a burst of "
     "26 000..110 000 records logged in one tight loop. About a fifth of the logs is written to a path at which a file exists already; "
-    "about half of the reader histories run with a second reader object open on another log. Held means held on those logs and mode parameters."
+    "about half of the reader histories run with a second reader object open on another log. All record objects handed out by in-process "
+    "readers are edited by the harness after judgement, so every reading but the first of a log is a reading after a caller's edits; three of the "
+    "twelve hr containers and two of the nine reader containers end without a final newline. Held means held on those logs and mode parameters."
 )
 LEVEL_NOTE = (
     "Trusted: the list model in vf/models/logmodel.py, the zstandard/gzip libraries used to derive the other containers from "
@@ -101,7 +110,12 @@ RULE = (
     "second reader object on an earlier log of the shard or on the second log of the pair (record count different and not 0; container "
     "drawn from all reader containers), with 1..2 operations (len 30%, offset k 30%, reverse 15%, forward, partial forward, iteration with "
     "len) in one gap between two operations of the first reader for certain and in every other gap (also before the first and after "
-    "the last operation) with probability 0.45"
+    "the last operation) with probability 0.45. "
+    "Containers *-unterminated = the decompressed bytes without the newline after the last record (plain file, one gzip member, bytes piped "
+    "to hr's stdin); they take part in the enumeration / sampling like every other container, and every log gets len and offset -1 | offset N-1 | "
+    "reverse on one of them and one hr --tail. Consumer edits: after the oracle has judged the result of a reader operation (fresh reader cases and "
+    "every operation of a history), each returned record object gets data = its marker + a stamp, tags.append(stamp tag) (or tags = [stamp tag]), "
+    "priority = 0, _python_level_no = 50, datetime = a constant, stacktrace = 'edited'"
 )
 ASSUMPTIONS = [
     "text is any sequence of Unicode scalar values (no lone surrogates); every text starts with a unique marker '#id<i>#' and payloads/tags never contain '#id'",
@@ -129,6 +143,11 @@ ASSUMPTIONS = [
     "the statement is about each log and its reader: a PenlogReader yields the slices of the log it was opened on whether or not other "
     "PenlogReader objects are open in the process and whatever is done with them in between (operations are not nested: one reader's "
     "operation ends before the other reader is used)",
+    "a PenlogRecord handed to the caller is the caller's object (a mutable dataclass; hr itself assigns record.colored): what the caller does "
+    "with it afterwards is not part of the log. The statement is about what reading the log yields, for every reading of a history - a second pass, "
+    "a fresh reader, hr in the same process yield the records the run logged, not the caller's edited copies",
+    "a plain / .gz / stdin input whose last line is not followed by a newline holds the same record sequence as the terminated one (forward "
+    "reading yields these N records); len, offset, reverse and tail address that same sequence ('each yield the corresponding slice of that sequence')",
 ]
 EXHAUSTIVE = {"quick": False, "thorough": False}
 EXHAUSTIVE_NOTE = "exhaustive sub-space: for the enumerated edge logs with <=3 records all thresholds 0..8 x modes x containers x n in {0..len+2, default} are run"
@@ -143,8 +162,15 @@ SECOND_LOGGER_NAMES = ["c17second", "c17second.run.\u00e4", "c17second.a.b"]
 SECOND_ID0 = 500_000  # markers of the records of the second log start here, so that a record in the wrong file is recognisable
 PRE_ID0 = 900_000  # markers of the records of an earlier run whose log is found at the log path when the run starts
 # "zst-frames" / "gz-members": the same decompressed bytes as a .zst of several zstd frames / a .gz of several gzip members
-READER_CONTAINERS = ["zst", "plain", "gz", "noprefix", "mixedprefix", "zst-frames", "gz-members"]
-HR_CONTAINERS = ["zst", "plain", "gz", "noprefix", "mixedprefix", "zst-frames", "gz-members", "stdin-file", "stdin-pipe"]
+# "*-unterminated": the same bytes without the newline after the last record (printf / jq -j output, a copy that ends with the last byte
+# of the last record): forward reading yields the same N records, so every other mode is judged against the same N records
+READER_CONTAINERS = ["zst", "plain", "gz", "noprefix", "mixedprefix", "zst-frames", "gz-members", "plain-unterminated", "gz-unterminated"]
+HR_CONTAINERS = ["zst", "plain", "gz", "noprefix", "mixedprefix", "zst-frames", "gz-members", "stdin-file", "stdin-pipe",
+                 "plain-unterminated", "gz-unterminated", "stdin-pipe-unterminated"]
+UNTERMINATED = "last-record-not-newline-terminated"
+# what the harness, as the consumer of a reading, writes into the record objects it was handed (after they have been judged)
+EDIT_STAMP = " <redacted-by-the-consumer-of-an-earlier-reading>"
+EDIT_TAG = "edited-by-the-consumer"
 SEVERAL_PARTS = {"zst-frames": "multi-frame-zst", "gz-members": "multi-member-gz"}
 MARK = re.compile(r"#id(\d+)#")
 
@@ -231,6 +257,17 @@ def required_reach(tier: str) -> dict[str, int]:
         "writer.file-exists-at-log-path.not-a-zstd-file": 2, "writer.file-exists-at-log-path.truncated-log-of-an-earlier-run": 2,
         "writer.file-exists-at-log-path.empty-file": 1, "writer.file-exists-at-log-path.file-not-empty.this-run-logs-nothing": 1,
         "writer.file-exists-at-log-path.file-not-empty.log-written-in-several-runs": 3,
+    })
+    # input whose last record is not followed by a newline; readings after the consumer of an earlier reading edited the records it got
+    need.update({
+        f"reader.{UNTERMINATED}": 500, f"reader.{UNTERMINATED}.len": 60, f"reader.{UNTERMINATED}.read-from-the-end": 300,
+        f"reader.{UNTERMINATED}.log-of-one-record.len-or-read-from-the-end": 50,
+        f"hr.{UNTERMINATED}": 1500, f"hr.{UNTERMINATED}.read-from-the-end": 800, f"hr.{UNTERMINATED}.stdin": 500,
+        f"hr.{UNTERMINATED}.log-of-one-record.len-or-read-from-the-end": 200, "hr.subprocess.stdin-pipe-unterminated": 3,
+        "reader.caller-edits-the-records-it-was-handed": 2000, "reader.reread-after-caller-edit": 2000,
+        "reader.reread-after-caller-edit.other-container-with-the-same-lines": 1500,
+        "reader.reuse.reread-after-caller-edit": 500, "reader.reuse.reread-after-caller-edit.same-reader-object": 300,
+        "hr.read-after-caller-edit": 5000,
     })
     if tier == "thorough":
         need.update({"writer.burst": 4, "writer.burst.writer-starved": 3, "writer.burst.free-running": 1, "writer.burst.ge-20000-records": 4,
@@ -995,6 +1032,8 @@ class LogState:
         self.second: LogState | None = None
         self.alone: Any = None  # control: the same records written with no other log open (LogState, False = could not be built)
         self.facts: dict[str, Any] = {}
+        self.unterminated = False  # the "*-unterminated" containers really lack the newline after the last record (the log has records)
+        self.edited: set[int] = set()  # ids of the records of which the consumer (harness) edited a copy it was handed by an earlier reading
 
     def witness_log(self) -> dict[str, Any]:
         specs = self.logdef["specs"]
@@ -1218,9 +1257,17 @@ def finish_log(ctx: Any, st: LogState, shadow: list[dict[str, Any]], run_files: 
     # index has an odd number of set bits, so prefixed and prefix-less lines follow each other in both directions
     mixed = [re.sub(rb"^<\d+>", b"", ln) if bin(i).count("1") % 2 else ln for i, ln in enumerate(st.raw.splitlines(keepends=True))]
     (d / "mixedprefix.json").write_bytes(b"".join(mixed))
+    # the same lines, the last one not followed by a newline (what printf, jq -j or a copy that stops with the last byte leave)
+    cut = st.raw[:-1] if st.raw.endswith(b"\n") else st.raw
+    st.unterminated = bool(cut) and cut != st.raw
+    (d / "unterminated.json").write_bytes(cut)
+    with gzip.open(d / "unterminated.json.gz", "wb", compresslevel=1) as g:
+        g.write(cut)
     st.paths = {"zst": zst, "plain": d / "log.json", "gz": d / "log.json.gz", "noprefix": d / "noprefix.json", "mixedprefix": d / "mixedprefix.json",
                 "zst-frames": d / "frames.json.zst", "gz-members": d / "members.json.gz",
-                "stdin-file": d / "log.json", "stdin-pipe": d / "log.json"}
+                "stdin-file": d / "log.json", "stdin-pipe": d / "log.json",
+                "plain-unterminated": d / "unterminated.json", "gz-unterminated": d / "unterminated.json.gz",
+                "stdin-pipe-unterminated": d / "unterminated.json"}
     # reach counters of the workload (what was actually written)
     ctx.reach(f"file_level.{logdef['file_level']}")
     ctx.reach("log.len" + (str(st.N) if st.N <= 2 else "_other"))
@@ -1357,7 +1404,7 @@ def exec_hr_inproc(st: LogState | None, cand: dict[str, Any], files: list[tuple[
                 r, w = os.pipe()
                 os.dup2(r, 0)
                 os.close(r)
-                data = st.raw
+                data = st.raw if c == "stdin-pipe" else st.paths[c].read_bytes()
 
                 def feed() -> None:
                     try:
@@ -1416,9 +1463,9 @@ def exec_hr_subprocess(st: LogState | None, cand: dict[str, Any], files: list[tu
         assert st is not None
         fh = open(st.paths[c], "rb")  # noqa: SIM115
         kw["stdin"] = fh
-    elif c == "stdin-pipe":
+    elif c.startswith("stdin-pipe"):
         assert st is not None
-        kw["input"] = st.raw
+        kw["input"] = st.raw if c == "stdin-pipe" else st.paths[c].read_bytes()
     else:
         kw["stdin"] = subprocess.DEVNULL
     try:
@@ -1558,6 +1605,53 @@ def field_diffs(rec: Any, e: dict[str, Any]) -> list[tuple[str, str]]:
     except Exception as ex:
         out.append(("timestamp", f"unusable datetime {rec.datetime!r}: {ex!r}"))
     return out
+
+
+def carries_consumer_edit(rec: Any) -> bool:
+    """Does this record object show what the harness wrote into the records of an earlier reading?"""
+    data, tags = getattr(rec, "data", None), getattr(rec, "tags", None)
+    return (isinstance(data, str) and EDIT_STAMP in data) or (isinstance(tags, list) and EDIT_TAG in tags)
+
+
+def consumer_edits(st: LogState, recs: list[Any] | None, local: set[int] | None = None) -> tuple[bool, bool]:
+    """The harness as the consumer of a reading: it post-processes the record objects it was handed - its own objects, and only after
+    they have been judged: text redacted (the marker stays), a tag added (in place where the record has a tag list), priority escalated
+    to the most severe one (so that no filter hides the record), time stamp and stack trace replaced.  The log is what the file holds: every
+    later reading (this reader object, a fresh one, hr, another container with the same lines) must be unaffected.
+    -> (some record of this reading had been edited after an earlier reading of this log, ... after an earlier reading noted in `local`)"""
+    import datetime
+
+    again = again_local = False
+    if not recs:
+        return again, again_local
+    stamp_time = datetime.datetime(2001, 2, 3, 4, 5, 6, tzinfo=datetime.timezone.utc)
+    edited = st.edited
+    for r in recs:
+        try:
+            data = r.data
+            m = MARK.match(data) if isinstance(data, str) else None
+            if m:
+                i = int(m.group(1))
+                if i in edited:
+                    again = True
+                    if local is not None and i in local:
+                        again_local = True
+                else:
+                    edited.add(i)
+                if local is not None:
+                    local.add(i)
+            r.data = (m.group(0) if m else "") + EDIT_STAMP
+            if isinstance(r.tags, list):
+                r.tags.append(EDIT_TAG)
+            else:
+                r.tags = [EDIT_TAG]
+            r.priority = type(r.priority)(0)
+            r._python_level_no = 50
+            r.datetime = stamp_time
+            r.stacktrace = "edited"
+        except Exception:  # an object that is no record at all has been reported by the oracle already
+            pass
+    return again, again_local
 
 
 def walk_hr_stdout(stdout: str, exp: list[dict[str, Any]]) -> tuple[str, str] | None:
@@ -1716,6 +1810,31 @@ def run_case(ctx: Any, st: LogState, cand: dict[str, Any]) -> None:
     if st.N == 0:
         ctx.reach(f"{base}.empty_log")
     reach_parts(ctx, base, st, cand["container"])
+    # the consumer of an earlier reading edited the record objects it was handed: does this reading show those edits?
+    shows_edits = False
+    if base == "reader":
+        shows_edits = verdict is not None and any(carries_consumer_edit(r) for r in res.get("records") or [])
+        # ... and now the harness edits the records of this reading (they have been judged)
+        if res.get("records"):
+            ctx.reach("reader.caller-edits-the-records-it-was-handed")
+            if consumer_edits(st, res["records"])[0]:
+                ctx.reach("reader.reread-after-caller-edit")
+                if cand["container"] != "zst":
+                    ctx.reach("reader.reread-after-caller-edit.other-container-with-the-same-lines")
+    elif comp == "hr" and st.edited:
+        out = res.get("stdout") or ""
+        shows_edits = verdict is not None and (EDIT_STAMP in out or EDIT_TAG in out)
+        if any(int(m.group(1)) in st.edited for m in MARK.finditer(out)):
+            ctx.reach("hr.read-after-caller-edit")
+    if cand["container"].endswith("-unterminated") and st.unterminated:
+        ctx.reach(f"{base}.{UNTERMINATED}")
+        from_end = mode in ("reverse", "reverse-default", "tail") or (mode == "offset" and cand["k"] < 0)
+        if mode == "len" or from_end:
+            ctx.reach(f"{base}.{UNTERMINATED}.{'len' if mode == 'len' else 'read-from-the-end'}")
+            if st.N == 1:
+                ctx.reach(f"{base}.{UNTERMINATED}.log-of-one-record.len-or-read-from-the-end")
+        if cand["container"].startswith("stdin"):
+            ctx.reach(f"{base}.{UNTERMINATED}.stdin")
     if base == "reader":
         if "p" in cand:
             ctx.reach(f"reader.prio.{cand['p']}")
@@ -1751,6 +1870,16 @@ def run_case(ctx: Any, st: LogState, cand: dict[str, Any]) -> None:
     if verdict is None:
         return
     k, what, detail = verdict
+    if shows_edits:
+        # what this reading yields is not what the file holds but what an earlier consumer wrote into ITS copies of the records (the
+        # marks of the harness are in the result): object state shared between readings.  The controls below would all read the same
+        # lines again in this process and see the same, so they are not asked.
+        ctx.violation(f"{base}/reading-after-caller-edit/yields-the-records-as-edited-by-the-consumer-of-an-earlier-reading",
+                      f"{base} {mode}: the records carry the edits that the consumer of an earlier reading of this log made to the objects it was handed",
+                      {"log": st.witness_log(), "case": cand, "argv": res.get("argv"), "detail": f"first difference: {k}: {detail[:500]}",
+                       "n_records_in_file": st.N, "records_edited_before": len(st.edited),
+                       "prelude": "a forward reading of the .zst file by a consumer that edits the records it was handed"})
+        return
     # Is the subprocess / the container part of the mechanism?  Ask the same question in-process and on the
     # primary container (.zst): the same failure there means it is not.
     suffix = ""
@@ -1902,6 +2031,22 @@ def exec_history(ctx: Any, st: LogState, ops: list[dict[str, Any]], other: LogSt
     table_needed_before = {"A": False, "B": False}  # did an earlier operation on this reader need the offset table (len, seek, reverse)?
     used = {"A": False, "B": False}
     ra_seq: list[str] = []  # the readers that were asked for a record by index so far, in order
+    edited_here: dict[str, set[int]] = {"A": set(), "B": set()}  # ids of the records this reader object handed out and the harness then edited
+
+    def edit(who: str, tst: LogState, res: dict[str, Any]) -> None:
+        """The consumer edits the records this operation handed to it (they have been judged)."""
+        if res.get("records"):
+            again, again_here = consumer_edits(tst, res["records"], edited_here[who])
+            if again:
+                ctx.reach("reader.reuse.reread-after-caller-edit")
+            if again_here:
+                ctx.reach("reader.reuse.reread-after-caller-edit.same-reader-object")
+
+    def edits_shown(key: str, res: dict[str, Any]) -> str:
+        """The failure key, unless the result carries the marks the harness left in the records of an earlier reading."""
+        if any(carries_consumer_edit(r) for r in res.get("records") or []):
+            return "reader/reuse/reading-after-caller-edit/yields-the-records-as-edited-by-the-consumer-of-an-earlier-reading"
+        return key
     try:
         try:
             readers["A"] = PenlogReader(st.paths[container])
@@ -1944,7 +2089,8 @@ def exec_history(ctx: Any, st: LogState, ops: list[dict[str, Any]], other: LogSt
                     cv = eval_iter_len(tst, ctl, cres)
                     if cv is not None and cv[0] == v[0]:
                         key = f"reader/{d}/{v[0]}"
-                    return (key, f"reused reader object: operation {idx}: {v[1]}", v[2], idx, who)
+                    return (edits_shown(key, res), f"reused reader object: operation {idx}: {v[1]}", v[2], idx, who)
+                edit(who, tst, res)
                 read_before[who] = True
                 table_needed_before[who] = True
                 continue
@@ -1966,7 +2112,8 @@ def exec_history(ctx: Any, st: LogState, ops: list[dict[str, Any]], other: LogSt
                     if not kind.startswith("raises-") and kind != "wrong-count":
                         kind = "wrong-result"
                     key = f"reader/reuse/{opname}-after-{'read' if read_before[who] else 'len'}/{kind}"
-                return (key, f"reused reader object: operation {idx} ({op['mode']}) disagrees with the model", verdict[2], idx, who)
+                return (edits_shown(key, res), f"reused reader object: operation {idx} ({op['mode']}) disagrees with the model", verdict[2], idx, who)
+            edit(who, tst, res)
             if op["mode"] != "len":
                 read_before[who] = True
         return None
@@ -2025,6 +2172,9 @@ def run_history(ctx: Any, st: LogState, rng: random.Random, ops: list[dict[str, 
             key = f"reader/two-readers-open/{HISTORY_OPNAME.get(ops[idx]['mode'], ops[idx]['mode'])}/{kind}"
             what = f"two reader objects open on different logs: operation {idx} ({ops[idx]['mode']}, {'first' if who == 'A' else 'second'} reader) disagrees with the model of its own log"
         wit.update(other_log=other.witness_log(), other_container=other_container, n_records_in_other_file=other.N, failing_reader="first" if who == "A" else "second")
+    if "/reading-after-caller-edit/" in key:
+        what = "reused reader object: the records carry the edits that the consumer of an earlier reading of this log made to the objects it was handed"
+        wit["prelude"] = "a forward reading of the .zst file by a consumer that edits the records it was handed"
     ctx.violation(key, what, wit)
     ctx.trace(("history", key))
 
@@ -2114,6 +2264,20 @@ def run_multi_case(ctx: Any, files: list[tuple[LogState, str]], cand: dict[str, 
     if verdict is None:
         return
     k, what, detail = verdict
+    logs: list[LogState] = []
+    refs = []
+    for f, c in files:
+        if not any(f is x for x in logs):
+            logs.append(f)
+        refs.append([next(i for i, x in enumerate(logs) if x is f), c])
+    if any(f.edited for f in logs) and cand["component"] == "hr" and (EDIT_STAMP in res.get("stdout", "") or EDIT_TAG in res.get("stdout", "")):
+        # hr prints what the consumer of an earlier reading wrote into its copies of the records (see run_case)
+        ctx.violation("hr/reading-after-caller-edit/yields-the-records-as-edited-by-the-consumer-of-an-earlier-reading",
+                      f"hr {sub} over several files: the records carry the edits that the consumer of an earlier reading made to the objects it was handed",
+                      {"logs": [x.witness_log() for x in logs], "case": dict(cand, files=refs), "argv": res.get("argv"),
+                       "detail": f"first difference: {k}: {detail[:500]}", "n_records_in_files": lens,
+                       "prelude": "a forward reading of every .zst file by a consumer that edits the records it was handed"})
+        return
     # control: every file alone with the same options; a failure there is not about several files
     for f, c in files:
         sc = single_of(cand, c)
@@ -2121,12 +2285,6 @@ def run_multi_case(ctx: Any, files: list[tuple[LogState, str]], cand: dict[str, 
         if sv is not None:
             k, what, detail = sv[0], sv[1], f"(also with this file alone) {sv[2]}"
             break
-    logs: list[LogState] = []
-    refs = []
-    for f, c in files:
-        if not any(f is x for x in logs):
-            logs.append(f)
-        refs.append([next(i for i, x in enumerate(logs) if x is f), c])
     ctx.violation(k, what, {"logs": [x.witness_log() for x in logs], "case": dict(cand, files=refs), "argv": res.get("argv"), "detail": detail[:600],
                             "n_records_in_files": lens})
 
@@ -2206,6 +2364,11 @@ def plan(rng: random.Random, st: LogState, budget: int, exhaustive: bool) -> lis
                 if k >= 0 or exhaustive:
                     (core if c == "zst" and p == 8 and k == ks_all[-1] else extra).append(R(c, "reverse-from", k=k, p=p))
     core.append(R(rng.choice(READER_CONTAINERS[1:]), "forward", p=8))
+    # a file whose last record is not followed by a newline: the operations that need the end of the offset table
+    u = rng.choice(["plain-unterminated", "gz-unterminated"])
+    core.append(R(u, "len"))
+    if N:
+        core.append(R(u, "offset", k=rng.choice([-1, -1, N - 1]), p=8) if rng.random() < 0.7 else R(u, "reverse", p=8))
 
     def H(container: str, mode: str, pspec: str | None, **kw: Any) -> dict[str, Any]:
         d: dict[str, Any] = {"component": "hr", "container": container, "mode": mode, "pspec": pspec, **kw}
@@ -2246,6 +2409,7 @@ def plan(rng: random.Random, st: LogState, budget: int, exhaustive: bool) -> lis
         core.append(H(c, rng.choice(["forward", "tail", "head", "reverse"]), rng.choice(["trace", "7", None]), n=None))
         if core[-1]["mode"] in ("head", "tail"):
             core[-1]["n"] = rng.choice([None, 1, N, N + 1])
+    core.append(H(rng.choice(["plain-unterminated", "gz-unterminated", "stdin-pipe-unterminated"]), "tail", "trace", n=rng.choice([1, 1, 2, N, None])))
     if exhaustive:
         return core + extra
     room = max(0, budget - len(core))
@@ -2274,7 +2438,7 @@ def process_log(ctx: Any, rng: random.Random, logdef: dict[str, Any], regen: dic
         if Env.sub_left > 0:
             hrc = [c for c in cands if c["component"] == "hr"]
             picks = []
-            want_c = ["stdin-pipe", "stdin-file", "zst", "gz"][Env.sub_left % 4]
+            want_c = ["stdin-pipe", "stdin-file", "zst", "gz", "plain-unterminated", "stdin-pipe-unterminated"][Env.sub_left % 6]
             pool = [c for c in hrc if c["container"] == want_c] or hrc
             if pool:
                 picks.append(rng.choice(pool))
@@ -2392,6 +2556,10 @@ def replay(ctx: Any, witness: dict[str, Any]) -> None:
         try:
             if all(x is not None for x in sts):
                 cand = witness["case"]
+                if witness.get("prelude"):
+                    for x in sts:
+                        pre = exec_reader(x, {"component": "reader", "container": "zst", "mode": "forward", "p": 8})
+                        consumer_edits(x, pre.get("records"))
                 run_multi_case(ctx, [(sts[i], c) for i, c in cand["files"]], cand)
         finally:
             for x, _ in built:
@@ -2406,6 +2574,10 @@ def replay(ctx: Any, witness: dict[str, Any]) -> None:
     try:
         if "case" not in witness and "history" not in witness:
             return  # a failure of the writer itself: build() has reported it again
+        if witness.get("prelude"):
+            # an earlier reading of this log whose consumer edits the records it was handed
+            pre = exec_reader(st, {"component": "reader", "container": "zst", "mode": "forward", "p": 8})
+            consumer_edits(st, pre.get("records"))
         if "history" in witness and "other_log" in witness:
             otop, ost = build(expand(witness["other_log"]))
             try:
